@@ -11,6 +11,12 @@
   a small length, plus seeded structured lines whose tokens the generator knows (shlex must agree with the
   generator, otherwise the case is dropped and counted).
 
+* byte alphabet (round 6): command lines are BYTE strings.  They are handled here as latin-1 text (one character
+  per byte, so every byte survives shlex unchanged) and shipped as hex of the latin-1 bytes.  Bytes >= 0x80 are
+  ordinary word characters for a shell: valid UTF-8 sequences of 2/3/4 bytes, lone continuation bytes, lone lead
+  bytes, 0x80 and 0xFF occur bare, inside '...', inside "...", after a backslash, next to quotes and blanks, in
+  positionals, option names, option values and flag groups.  NUL bytes are never generated (not demanded).
+
 One case per line:  F <hex text> <16 hex digits | REJECT | ANY>      S <hex cmdline> <hex,hex,...| ->
 """
 import itertools
@@ -32,13 +38,28 @@ EXPS = ["", "e0", "E0", "e1", "e+1", "e-1", "E+10", "e-10", "e22", "e23", "e308"
 FLOAT_GARBAGE = ["", "x", "5x", "0x", "--5", "5 ", "1e", "1.5.2", "1e+", "1e-", "1ee5", "1e5.5", "1.e", ".", "-", "-.",
                  "e", "e5", ".e5", "1,5", "1 2", "1.5f", "5L", "1.0.0", "1e5e5", "1d5", "--1.5", "-+1", "1-", "1.5-",
                  "$1", "1.5\t", "1.5\n", "1_0", "1e1_0", "1.5 x", "0xg", "1.5e", "1.5E+", "..5", "5..", "-e5",
-                 "1e 5", "1 e5", "- 1", "1.-5", "one", "1/2", "1.5%"]
+                 "1e 5", "1 e5", "- 1", "1.-5", "one", "1/2", "1.5%",
+                 # bytes >= 0x80 (UTF-8 sequences; \udcXX = the lone byte XX through surrogateescape): never part of a literal
+                 "1.5\u00e9", "\u20ac5", "5\u20ac", "1\u00a02", "1.5\u00a0", "\u00a01.5", "\udcff", "1.5\udc80", "\udcff1.5", "1e\udcff5", "1\udc805",
+                 "\uff11.5", "1.\uff15", "1.5e\u00b2", "\u00e9", "-\u00e9", "-1\udca9", "1\U0001f6002", ".\udcc3", "1e+\u00e9"]
 FLOAT_ANY = ["inf", "-inf", "Infinity", "nan", "NAN", "-nan", "0x1p3", "0x1.8p1", "0X10", "+1.5", " 1.5", "+.5e1",
              "infinity", "nan(1)", "0x.8p1", "0x1.8", "0x10.", "-0x1p-3"]
 
 
 def _hex(s):
     return s.encode("utf-8", "surrogateescape").hex() if isinstance(s, str) else s.hex()
+
+
+def _hexb(s):
+    """hex of a command line / token held as latin-1 text (one character per byte)"""
+    return s.encode("latin-1").hex()
+
+
+# high-byte units (latin-1 text of the raw bytes): UTF-8 of e-acute, e-diaeresis, euro sign, U+1F600, CJK; lone
+# continuation byte, lone lead byte, 0x80, 0xFF, 0xFE 0xFF, NEL (0x85) and NBSP (0xA0) which are blanks in some
+# 8-bit/Unicode tables but ordinary bytes for a shell
+HI_UNITS = ["\xc3\xa9", "\xc3\xab", "\xe2\x82\xac", "\xf0\x9f\x98\x80", "\xe6\x97\xa5", "\xa9", "\xc3", "\x80", "\xff",
+            "\xfe\xff", "\x85", "\xa0", "\xbf", "\xc0\x80", "\xed\xa0\x80"]
 
 
 def float_cases(tier, rnd):
@@ -92,7 +113,7 @@ def in_subset(s):
         ch = s[i]
         if state is None:
             if ch == "\\":
-                if i + 1 >= n or not (" " <= s[i + 1] <= "~"):
+                if i + 1 >= n or not (" " <= s[i + 1] <= "~" or s[i + 1] >= "\x80"):
                     return False
                 i += 2
                 continue
@@ -118,8 +139,13 @@ def in_subset(s):
 WORD_CHARS = "abcxyzKV0159-=.,:/_+@%"
 
 
+def _is_word(c):
+    return c in WORD_CHARS or c >= "\x80"
+
+
 def quote_token(tok, rnd):
-    """Spell tok in shell syntax using a random mix of quoting styles, segment by segment."""
+    """Spell tok in shell syntax using a random mix of quoting styles, segment by segment.
+    Bytes >= 0x80 are word characters (bare style), and are also produced quoted and backslash-escaped."""
     out = []
     i = 0
     while i < len(tok):
@@ -127,15 +153,110 @@ def quote_token(tok, rnd):
         seg = tok[i:i + seglen]
         i += seglen
         style = rnd.randrange(4)
-        if style == 0 and all(c in WORD_CHARS for c in seg):
+        if style == 0 and all(_is_word(c) for c in seg):
             out.append(seg)
         elif style == 1 and "'" not in seg and "\\" not in seg:
             out.append("'" + seg + "'")
         elif style == 2:
             out.append('"' + seg.replace("\\", "\\\\").replace('"', '\\"') + '"')
         else:
-            out.append("".join(c if c in WORD_CHARS else "\\" + c for c in seg))
+            # backslash style: non-word characters must be escaped; high bytes are escaped half of the time
+            out.append("".join(c if (c in WORD_CHARS or (c >= "\x80" and rnd.random() < 0.5)) else "\\" + c for c in seg))
     return "".join(out)
+
+
+def _emit_line(out, stats, s, toks, key):
+    """toks: the generator's own token list (None = enumerated string, shlex alone decides)."""
+    if not in_subset(s):
+        stats["cmdline_outside_subset"] += 1
+        return False
+    try:
+        sh = shlex.split(s, posix=True)
+    except ValueError:
+        stats["cmdline_generator_disagrees_with_shlex"] += 1
+        return False
+    if toks is not None and sh != toks:
+        stats["cmdline_generator_disagrees_with_shlex"] += 1
+        return False
+    if any(t == "" for t in sh):
+        stats["cmdline_empty_token_excluded"] += 1
+        return False
+    out.append("S\t%s\t%s" % (_hexb(s), ",".join(_hexb(t) for t in sh) or "-"))
+    stats[key] += 1
+    return True
+
+
+def cmdline_highbyte_cases(tier, rnd):
+    """Command lines whose tokens contain bytes >= 0x80 (latin-1 text = raw bytes) in every syntactic position."""
+    out = []
+    stats = {"cmdline_outside_subset": 0, "cmdline_empty_token_excluded": 0, "cmdline_generator_disagrees_with_shlex": 0,
+             "cmdline_hi_enumerated": 0, "cmdline_hi_contexts": 0, "cmdline_hi_structured": 0}
+    quick = tier == "quick"
+    # (1) exhaustive: all strings up to length 4 / 5 over the shell alphabet + four high bytes (a 2-byte UTF-8 pair,
+    # 0x80, 0xFF) that contain at least one high byte and lie in the unambiguous subset
+    alphabet = ["a", "-", "=", " ", '"', "'", "\\", "\xc3", "\xa9", "\x80", "\xff"]
+    for ln in range(1, (4 if quick else 5) + 1):
+        for tup in itertools.product(alphabet, repeat=ln):
+            if not any(c >= "\x80" for c in tup):
+                continue
+            _emit_line(out, stats, "".join(tup), None, "cmdline_hi_enumerated")
+    # (2) every high-byte unit x every syntactic context x every token role (the generator knows the tokens)
+    contexts = [
+        ("bare", lambda u: u),
+        ("sq", lambda u: "'" + u + "'"),
+        ("dq", lambda u: '"' + u + '"'),
+        ("bs", lambda u: "".join("\\" + c for c in u)),
+        ("bs-first", lambda u: "\\" + u),
+        ("sq-mid", lambda u: "'x" + u + "y'"),
+        ("dq-mid", lambda u: '"x ' + u + ' y"'),
+        ("after-sq", lambda u: "'q'" + u),
+        ("before-dq", lambda u: u + '"q"'),
+        ("dq-escapes", lambda u: '"\\"' + u + '\\\\"'),
+        ("split-across-quotes", lambda u: (u[0] + "'" + u[1:] + "'") if len(u) > 1 else ("''" + u)),
+    ]
+    ctx_token = {"bare": "%s", "sq": "%s", "dq": "%s", "bs": "%s", "bs-first": "%s", "sq-mid": "x%sy", "dq-mid": "x %s y",
+                 "after-sq": "q%s", "before-dq": "%sq", "dq-escapes": '"%s\\', "split-across-quotes": "%s"}
+    roles = [  # (name, shell text with {} for the spelled unit, token with {} for the unit's bytes)
+        ("positional", "{}", "{}"),
+        ("positional-prefix", "{}5", "{}5"),
+        ("positional-suffix", "Zo{}", "Zo{}"),
+        ("option-name", "--caf{}=v", "--caf{}=v"),
+        ("option-name-only", "--{}", "--{}"),
+        ("option-value", "--k={}", "--k={}"),
+        ("option-value-numeric", "--n=1{}2", "--n=1{}2"),
+        ("flag-group", "-v{}q", "-v{}q"),
+    ]
+    blanks = [" ", "\t", "  ", " \t"]
+    for u in HI_UNITS:
+        for cname, spell in contexts:
+            if cname == "split-across-quotes" and len(u) == 1:
+                continue  # '' next to the byte: the pair of quotes adds nothing, the token is not empty
+            for rname, rshell, rtok in roles:
+                tok = rtok.replace("{}", ctx_token[cname] % u)
+                txt = rshell.replace("{}", spell(u))
+                before = rnd.choice(["", "pos0", "--x=1", "\xc3\xa9t\xc3\xa9", "-f"])
+                after = rnd.choice(["", "last", "--y", "'a b'", "\xff"])
+                toks = ([before] if before else []) + [tok] + ([shlex.split(after)[0]] if after else [])
+                b = rnd.choice(blanks)
+                s = rnd.choice(["", "", " "]) + b.join(x for x in [before, txt, after] if x) + rnd.choice(["", "", "\t"])
+                _emit_line(out, stats, s, toks, "cmdline_hi_contexts")
+    # (3) seeded structured lines: natural-language tokens, mixed quoting per segment
+    pool_pos = ["Zo\xc3\xab", "\xe2\x82\xac5", "5\xe2\x82\xac", "\xff", "\x80\x81", "a\xa9b", "\xe6\x97\xa5\xe6\x9c\xac", "cr\xc3\xa8me br\xc3\xbbl\xc3\xa9e",
+                "\xf0\x9f\x98\x80", "it's \xc3\xa9t\xc3\xa9", 'dit "\xc3\xa7a"', "\xa0", "x\x85y", "\xc3", "pos0", "300", "-", "--", "\xff-x", "na\xc3\xafve=1"]
+    pool_opt = ["--caf\xc3\xa9", "--caf\xc3\xa9=cr\xc3\xa8me br\xc3\xbbl\xc3\xa9e", "--caf", "--caf=v", "--\xc3\xa9", "--\xc3\xa9=", "--k=\xff", "--\xff\xfe=v", "--k=\xe2\x82\xac5",
+                "--n=1\xc2\xa02", "--n=\xef\xbc\x95", "--na\xc3\xafve=o\xc3\xb9 \xc3\xa7a", "--k=\x80", "--\x80", "--k=v=\xc3\xa9", "--count=0x7FFF", "-vq", "-\xc3\xa9", "-v\xff",
+                "-\x80x", "--named2=value2", "--msg=dit \"\xc3\xa7a\"", "--k=it's \xc3\xa9"]
+    n = 1500 if quick else 30000
+    for _ in range(n):
+        toks = [rnd.choice(pool_pos if rnd.random() < 0.45 else pool_opt) for _ in range(rnd.randint(1, 6))]
+        if rnd.random() < 0.3:
+            units = list(WORD_CHARS) + [" ", " ", '"', "'", "\\"] + HI_UNITS * 2
+            toks = ["".join(rnd.choice(units) for _ in range(rnd.randint(1, 5))) for _ in range(rnd.randint(1, 4))]
+        if not any(c >= "\x80" for t in toks for c in t):
+            continue
+        s = rnd.choice(["", "", " ", "\t"]) + rnd.choice(blanks).join(quote_token(t, rnd) for t in toks) + rnd.choice(["", "", " ", "\t "])
+        _emit_line(out, stats, s, toks, "cmdline_hi_structured")
+    return out, stats
 
 
 def cmdline_cases(tier, rnd):
@@ -154,7 +275,7 @@ def cmdline_cases(tier, rnd):
             if any(t == "" for t in toks):
                 stats["cmdline_empty_token_excluded"] += 1
                 continue
-            out.append("S\t%s\t%s" % (_hex(s), ",".join(_hex(t) for t in toks) or "-"))
+            out.append("S\t%s\t%s" % (_hexb(s), ",".join(_hexb(t) for t in toks) or "-"))
             stats["cmdline_enumerated"] += 1
     # structured: the generator knows the tokens
     pool_pos = ["pos0", "a", "file.txt", "300", "4.0", "-", "--", "a b", "it's", 'say "hi"', "back\\slash", "x=y", "1,2", "tab\there"]
@@ -181,11 +302,15 @@ def cmdline_cases(tier, rnd):
         if any(t == "" for t in sh):
             stats["cmdline_empty_token_excluded"] += 1
             continue
-        out.append("S\t%s\t%s" % (_hex(s), ",".join(_hex(t) for t in sh) or "-"))
+        out.append("S\t%s\t%s" % (_hexb(s), ",".join(_hexb(t) for t in sh) or "-"))
         stats["cmdline_structured"] += 1
+    hi_lines, hi_stats = cmdline_highbyte_cases(tier, random.Random(rnd.getrandbits(64)))
+    out += hi_lines
+    for k, v in hi_stats.items():
+        stats[k] = stats.get(k, 0) + v
     # the unit test's own command line
     s = "pos0 --named1 300 --named2=value2 4.0 --int3=40000 --float4=2.0"
-    out.append("S\t%s\t%s" % (_hex(s), ",".join(_hex(t) for t in shlex.split(s))))
+    out.append("S\t%s\t%s" % (_hexb(s), ",".join(_hexb(t) for t in shlex.split(s))))
     return out, stats
 
 
